@@ -140,8 +140,15 @@ impl RecordSet {
             if let Some(key_field_index) = schema.key_field_index {
                 let mut map = HashMap::with_capacity(records.len());
                 for (i, record) in records.iter().enumerate() {
-                    if let Some(Value::UInt32(key)) = record.get_value(key_field_index) {
-                        map.insert(*key, i);
+                    match record.get_value(key_field_index) {
+                        Some(Value::UInt32(key)) => {
+                            map.insert(*key, i);
+                        }
+                        // Int32 key fields are accepted by `Schema::validate`; keys are looked up by bit pattern
+                        Some(Value::Int32(key)) => {
+                            map.insert(*key as Key, i);
+                        }
+                        _ => {}
                     }
                 }
                 Some(map)
@@ -232,10 +239,10 @@ impl RecordSet {
             .iter()
             .enumerate()
             .filter_map(|(i, record)| {
-                if let Some(Value::UInt32(key)) = record.get_value(key_field_index) {
-                    Some((*key, i))
-                } else {
-                    None
+                match record.get_value(key_field_index) {
+                    Some(Value::UInt32(key)) => Some((*key, i)),
+                    Some(Value::Int32(key)) => Some((*key as Key, i)),
+                    _ => None,
                 }
             })
             .collect();
